@@ -92,7 +92,8 @@ def run(c, a):
     ]
     # ---- 1. design
     design = [("so_cur_safe.cfg", "hold"), ("so_cur_wedge.cfg", "violated"), ("so_fix.cfg", "hold"), ("so_fix3.cfg", "hold"),
-              ("so_mut_nodefer.cfg", "violated"), ("so_mut_fastpath.cfg", "violated")]
+              ("so_mut_nodefer.cfg", "violated"), ("so_mut_fastpath.cfg", "violated"), ("so_mut_flag.cfg", "violated"),
+              ("so_mut_trackmod.cfg", "violated"), ("so_cur_track.cfg", "violated")]
     if thorough:
         design += [("so_cur3_safe.cfg", "hold"), ("so_cur3_wedge.cfg", "violated"), ("so_fix_live.cfg", "hold"),
                    ("so_fix3_live.cfg", "hold"), ("so_fix_w8.cfg", "hold"), ("so_cur_w8_safe.cfg", "hold")]
@@ -202,6 +203,10 @@ def run(c, a):
         if rc != 0 and not (evs and proxy_panicked(outp + ".log")):
             raise Broken("extra probes failed rc=%s: %s" % (rc, out[-1500:]))
         extra += evs
+    if any(e["ev"] == "Overlap" and e["forwarder"] and e["baseline"] != 0 for e in extra):
+        raise Broken("overlap probe: the process-wide stream tracker was not empty before the probe")
+    if sum(1 for e in extra if e["ev"] == "Overlap") < 6:
+        raise Broken("overlap probes incomplete")
     if sum(1 for e in extra if e["ev"] == "Concurrent") < 4 or sum(1 for e in extra if e["ev"] == "ServePanic") < 4:
         raise Broken("extra probes incomplete: %d events" % len(extra))
     for e in extra:
@@ -234,7 +239,7 @@ def run(c, a):
     flags = {}
     for g in OBS_RE.finditer(m.group(1)):
         flags.setdefault(int(g.group(1)), set()).add(g.group(2))
-    verdict_clauses = ("ends", "followup", "printer", "corrupt", "balanced", "crash")
+    verdict_clauses = ("ends", "followup", "printer", "corrupt", "balanced", "tracker", "crash")
     clause_count, not_cur, not_fixed, viol_ids = {}, [], [], set()
     for pid, fl in sorted(flags.items()):
         p = by_id[pid]
@@ -249,9 +254,17 @@ def run(c, a):
         for b in bad:
             clause_count[b] = clause_count.get(b, 0) + 1
         if "Open" not in p:
-            kind = "ServePanic" if "ServePanic" in p else "Concurrent"
+            kind = "ServePanic" if "ServePanic" in p else ("Overlap" if "Overlap" in p else "Concurrent")
             e = p[kind]
-            c.violation({"module": "StreamObs", "cause": "serve-panic-bookkeeping" if kind == "ServePanic" else "concurrent-bookkeeping",
+            cause = {"ServePanic": "serve-panic-bookkeeping", "Overlap": "overlapping-streams-bookkeeping"}.get(kind, "concurrent-bookkeeping")
+            if kind == "Overlap" and bad == ["tracker"]:
+                # classification only: every mismatch is about the server shard id that two streams shared
+                def only_shared(st):
+                    a, b = list(st["tracked"]), list(st["streams"])
+                    return st["twin"] and [x for x in a if x != 5] == [x for x in b if x != 5]
+                if all(st["tracked"] == st["streams"] or only_shared(st) for st in e["steps"]):
+                    cause = "forwarder-tracker-entry-shared-by-streams-on-one-server-shard"
+            c.violation({"module": "StreamObs", "cause": cause,
                          "clauses": "+".join(bad)},
                         "%s: %s" % ("/".join(bad), json.dumps(e)[:400]), {"kind": "streamobs-extra", "event": e})
             continue
@@ -285,6 +298,7 @@ def run(c, a):
         if o["numeric"] and o["val"] not in ("1", "+7", "007"):
             distinct.add((o["key"], o["val"], o["mode"]))
     c.coverage.update({
+        "overlap_probes": sum(1 for e in extra if e["ev"] == "Overlap"),
         "serve_panic_probes": sum(1 for e in extra if e["ev"] == "ServePanic"),
         "concurrent_rounds": sum(1 for e in extra if e["ev"] == "Concurrent"),
         "probes": nprobes, "probes_completed": len(complete), "probes_skipped_memory": len(skipped),
